@@ -250,4 +250,13 @@ def run(repo, tier):
     from .common import run_truthy_none
     if run_truthy_none(repo, res, MODS) < 1:
         raise AnalysisError('vanished anchor: optional numeric finder parameters')
+    from .common import apply_specs
+    apply_specs(repo, res, [
+        ('photutils.detection.starfinder._StarFinderCatalog.bbox_xmin', 'ret', 'np.array([slc[1].start for slc in self.slices])',
+         'x origin of the TRIMMED cutout (its slice start), not peak minus half kernel'),
+        ('photutils.detection.starfinder._StarFinderCatalog.bbox_ymin', 'ret', 'np.array([slc[0].start for slc in self.slices])',
+         'y origin of the trimmed cutout'),
+    ])
+    from .common import run_cache_pure
+    run_cache_pure(repo, res, modules=MODS)
     return res
